@@ -89,6 +89,14 @@ C16Checks(e) ==
                    ELSE Chk("C16.yearStar.newYear", << k, x.ly, x.ys[1] >>, x.ys[1] = YearStar(x.ly))
                         + Chk("C16.yearStar.lichunDay", << k, x.ys[2] >>, x.ys[2] = YearStar(PillarYearByDay(y, J, T[PosLiChun])) /\ x.ys[4] = x.ys[2])
                         + Chk("C16.yearStar.lichunInstant", << k, x.ys[3] >>, x.ys[3] = YearStar(PillarYearByInstant(y, noon, T[PosLiChun])))
+                        \* extension (outside C16, which only demands the step at each Jie): the classical anchoring of the month star -
+                        \* the month that starts at Lichun is star eight in 子午卯酉 years, five in 辰戌丑未 years, two in 寅申巳亥 years
+                        + (LET yp == PillarYearByDay(y, J, T[PosLiChun])
+                               reached == [p \in 1..31 |-> ReachedByDay(T, p, J)]
+                               km == MonthsSinceLichun(reached)
+                               tri == << 7, 4, 1 >>
+                               first == tri[((YearIdx(yp) % 12) % 3) + 1]
+                           IN Chk("EXT.monthStar.classical-anchor", << k, x.ms[2] >>, x.ms[2] = (first - km) % 9))
                         \* January days before the winter anchor continue the descending run from the previous
                         \* summer's anchor; when that run is 240 days long the case is reported under its own name
                         + (IF J < NearestJiaZi(T[PosDongZhiPrev].jdn) /\ NearestJiaZi(T[PosDongZhiPrev].jdn) - NearestJiaZi(JDN(e.pxz[1], e.pxz[2], e.pxz[3])) = 240
